@@ -1382,9 +1382,10 @@ def gen_wire_fields(info):
             problems.append(f"struct {name}: Deserialize is not derived (hand-written impl?)")
         structs.append((label, name, fields, deny, de, ser))
     # hand-written visitor of Response: the names its field visitor recognises, FIELDS, and what Serialize writes
-    arms = re.findall(r'"(\w+)"\s*=>\s*Ok\(\s*(?:Field|Self)::(\w+)\s*\)', rsp)
+    # `"name" => Ok(Field::X)` / `"name" => Self::X` / `"name" => ResponseField::X` (any enum path, with or without Ok)
+    arms = re.findall(r'"(\w+)"\s*=>\s*(?:Ok\(\s*)?\w+::(\w+)', rsp)
     if not arms:
-        problems.append("Response: no `\"name\" => Ok(Field::X)` arms found in the field visitor")
+        problems.append("Response: no `\"name\" => <Enum>::X` arms found in the field visitor")
     mF = re.search(r"const FIELDS\s*:\s*&\[&str\]\s*=\s*&\[([^\]]*)\]", rsp)
     fields_const = re.findall(r'"(\w+)"', mF.group(1)) if mF else []
     if not mF:
